@@ -126,8 +126,9 @@ impl StateEntry {
                 .unwrap()
                 .as_millis() as u64;
 
-            let ttl_ms = ttl.as_millis() as u64;
-            now > self.created_at + ttl_ms
+            // A TTL beyond the u64 millisecond range ("for ever") never runs out
+            let ttl_ms = u64::try_from(ttl.as_millis()).unwrap_or(u64::MAX);
+            now > self.created_at.saturating_add(ttl_ms)
         } else {
             false
         }
